@@ -16,7 +16,8 @@ def sl(n): return ','.join('St<%d>' % i for i in range(n))
 def mjob(name, prop, N=3, L=4, K=2, unwind=None, timeout=300, **defs):
     d = dict(NSTATES=N, STATE_LIST=sl(N), LIMIT=L, KSTEPS=K, PROP=prop)
     d.update(defs)
-    return Job(name, 'machine.cpp', d, unwind=unwind or max(8, L + 4, N + 2), unwindset={'nondet_fill.0': 200}, timeout=timeout, prop=(prop * 100, prop * 100 + 99))
+    plen = {6: 3, 7: 5, 8: 7, 10: 24, 11: 16, 14: 3, 15: 3, 16: 3}.get(int(d.get('PAYLOAD', 0) or 0), 0)
+    return Job(name, 'machine.cpp', d, unwind=unwind or max(8, L + 4, N + 2, plen + 2), unwindset={'nondet_fill.0': 200}, timeout=timeout, prop=(prop * 100, prop * 100 + 99))
 
 HIST = dict(FFSM2_ENABLE_TRANSITION_HISTORY='')
 SER = dict(FFSM2_ENABLE_SERIALIZATION='')
@@ -216,6 +217,8 @@ def c10_jobs(tier):
         if cap <= (3 if tier == 'quick' else 5):
             k = cap + 2 if tier == 'quick' else 2 * cap + 2
             j = kj('plan-hist-cap%d-k%d' % (cap, k), cap, MODE=1, KSTEPS=k); j.unwind = max(j.unwind, k + 3); J.append(j)
+            if cap <= 2 or tier != 'quick':
+                j = kj('plan-hist-manual-cap%d-k%d' % (cap, k + 1), cap, MODE=1, KSTEPS=k + 1, MANUAL=1); j.unwind = max(j.unwind, k + 4); J.append(j)
     if tier != 'quick':
         j = kj('plan-hist-cap3-pay', 3, MODE=1, PAYLOAD=1, KSTEPS=6); j.unwind = 10; J.append(j)
     return J
@@ -278,7 +281,7 @@ def c08_jobs(tier, prop=8):
         J.append(pjob('plan-n2-cap3-upd-l1', prop, cap=3, K=1, prefix=1, limit=1, timeout=T, NST=2, OPS=UPD, EDITS=0))
         J.append(pjob('plan-n2-cap2-react-l1', prop, cap=2, K=1, prefix=1, limit=1, timeout=T, NST=2, OPS=REACT, EDITS=0))
         J.append(pjob('plan-n2-cap2-ext-k3', prop, cap=2, K=3, prefix=0, limit=1, timeout=T, NST=2, OPS=EXT, EDITS=0))
-        J.append(pjob('plan-n2-cap1-upd-ext-k2-l1', prop, cap=1, K=2, prefix=1, limit=1, timeout=T, NST=2, OPS=UPD | EXT, EDITS=0))
+        J.append(pjob('plan-n2-cap1-upd-ext-k2-l1-edits', prop, cap=1, K=2, prefix=1, limit=1, timeout=T, NST=2, OPS=UPD | EXT, EDITS=1))
         J.append(pjob('plan-n2-cap2-upd-l1-payload', prop, cap=2, K=1, prefix=1, payload=1, limit=1, timeout=T, NST=2, OPS=UPD, EDITS=0))
     else:
         for cap in (1, 2, 3, 4, 5):
@@ -397,6 +400,16 @@ def c19_jobs(tier):
         tag = '+'.join(x.replace('FFSM2_ENABLE_', '').replace('FFSM2_', '').lower() for x in sw) if len(sw) <= 3 else 'set%03d' % i
         variant = dict(MANUAL=(i % 2), PAYLOAD=((i // 2) % 2))
         J.append(cj('cfg-base-vs-%s' % tag, base, dict((x, '') for x in sw), common=variant))
+    # programs that USE one feature: enabling further, unused switches must not change them either
+    P, S, H, L = 'FFSM2_ENABLE_PLANS', 'FFSM2_ENABLE_SERIALIZATION', 'FFSM2_ENABLE_TRANSITION_HISTORY', 'FFSM2_ENABLE_LOG_INTERFACE'
+    uses = [('serial', dict(USE_SERIAL=1), [S], [[P], [H], [P, H, L]]), ('history', dict(USE_HISTORY=1), [H], [[P], [S], [P, S, L]]), ('plans', dict(USE_PLANS=1), [P], [[S], [H], [S, H, L]])]
+    for uname, udefs, ubase, extras in uses:
+        for i, ex in enumerate(extras if tier != 'quick' else extras[:2] if uname != 'serial' else extras):
+            c = dict(udefs); c.update(dict(MANUAL=i % 2, PAYLOAD=0, FFSM2_DISABLE_TYPEINDEX='')); c.update(dict((x, '') for x in ubase))
+            if uname != 'plans': c['KSTEPS'] = 4
+            j = cj('cfg-uses-%s-plus-%s' % (uname, '+'.join(x.replace('FFSM2_ENABLE_', '').lower() for x in ex)), {}, dict((x, '') for x in ex), common=c, rtti=False)
+            if uname != 'plans': j.c_defines['PR_STEPS'] = 6; j.unwindset['nondet_fill.0'] = 6 * 12 + 2; j.unwindset['harness.1'] = 8; j.unwind = 8
+            J.append(j)
     # header variants: shipped single header vs development sources, same configuration
     for manual, pay in ((0, 1), (1, 0)):
         J.append(cj('hdr-shipped-vs-development-m%d-p%d' % (manual, pay), {}, {}, common=dict(MANUAL=manual, PAYLOAD=pay, FFSM2_DISABLE_TYPEINDEX='', FFSM2_ENABLE_PLANS='', FFSM2_ENABLE_TRANSITION_HISTORY=''), rtti=False))
@@ -426,17 +439,21 @@ def triage_ub(pid, job, r, work, variants, known, here):
     listed as unconfirmed and makes the check inconclusive rather than raising an alarm."""
     import fnmatch
     out = dict(violations=[], knowns=[], inconclusive=[])
-    seen = {}
-    for u in r['ub_failed']:
-        key = re.sub(r'\s+', ' ', u['desc'])[:80]
-        seen.setdefault(key, u)
-    for key, u in list(seen.items())[:3]:
-        cmd = r['cmds'][u['variant']]
-        draws, trace_out, dt = engine.trace_for(cmd, u['prop'], job.timeout * 2, job.mem_gb)
+    if not r['ub_failed']: return out
+    # one representative counterexample: whichever UB check the solver violates first (later failures are often only
+    # consequences of the first: after an out-of-bounds access the memory model returns arbitrary values)
+    by_variant = {}
+    for u in r['ub_failed']: by_variant.setdefault(u['variant'], u)
+    for vname, u in by_variant.items():
+        cmd = r['cmds'][vname]
+        draws, key, fn, trace_out, dt = engine.first_failure_trace(cmd, job.timeout * 2, job.mem_gb)
+        key = re.sub(r'\s+', ' ', key or u['desc'])[:80]
+        if not draws:
+            out['inconclusive'].append('%s: %d UB checks fail in the solver but no counterexample trace could be extracted' % (job.name, len(r['ub_failed']))); continue
         inc = dict(variants)[u['variant']]
         tag = '%s-ub%d' % (re.sub(r'\W', '_', job.name), abs(hash(key)) % 10000)
         outs, err = engine.native_replay(job, work, inc, draws, tag, sanitize=True)
-        san = bool(outs) and any(o[1] != 0 or 'runtime error' in o[2] or 'AddressSanitizer' in o[2] for o in outs)
+        san = bool(outs) and any('runtime error' in o[2] or 'AddressSanitizer' in o[2] or 'SIGNAL' in o[2] for o in outs)
         trn = False; trn_out = ''
         texe = os.path.join(u['wd'], 'translated')
         if os.path.exists(texe):
@@ -455,7 +472,7 @@ def triage_ub(pid, job, r, work, variants, known, here):
             continue
         kn = [x for x in known if x['prop'] == pid and fnmatch.fnmatch(label, x['match'])]
         if kn: out['knowns'].append((kn[0], label, rp))
-        else: out['violations'].append(dict(label=label, replay=rp, job=job.name, trace='confirmed by %s; %s' % ('UBSan/ASan on the native build' if san else 'replay of the translated IR on real addresses', (outs[0][2] if outs else trn_out)[-300:])))
+        else: out['violations'].append(dict(label=label, replay=rp, job=job.name, trace='confirmed by %s; %s' % ('UBSan/ASan on the native build' if san else 'replay of the translated IR on real addresses', next((o[2] for o in (outs or []) if 'runtime error' in o[2] or 'AddressSanitizer' in o[2]), trn_out)[-300:])))
     return out
 
 def alloc_scan(tier, work):
@@ -496,6 +513,8 @@ def c18_jobs(tier):
     for cap in ((1, 2, 3) if tier == 'quick' else (1, 2, 3, 4, 5, 6)):
         for pay in (0, 1):
             ubj(Job('tasks-cap%d-p%d' % (cap, pay), 'tasklist.cpp', dict(CAP=cap, MODE=0, PAYLOAD=pay), unwind=max(6, cap + 3), unwindset={'nondet_fill.0': 40 + 16 * cap}))
+    for cap in ((2,) if tier == 'quick' else (1, 2, 3)):
+        ubj(Job('plan-hist-manual-cap%d' % cap, 'tasklist.cpp', dict(CAP=cap, MODE=1, KSTEPS=cap + 3, MANUAL=1), unwind=cap + 7, unwindset={'nondet_fill.0': 40 + 16 * cap}))
     for w in ((1, 8, 13, 32) if tier == 'quick' else range(1, 33)):
         ubj(Job('bs-w%d' % w, 'bitstream.cpp', dict(W=w, CAP=255, MODE=0), unwind=50, unwindset={'nondet_fill.0': 40}))
     ubj(Job('bitwidth', 'bitstream.cpp', dict(MODE=1), unwind=50))
